@@ -143,10 +143,8 @@ Proof. unfold ensure_created. now intros ->. Qed.
 (* 3. the storage primitives                                           *)
 (* ------------------------------------------------------------------ *)
 
-Definition entry_of (d : desc) (bytes : str) : entry := mkEntry (d_mt d) (d_dg d) (d_sz d) bytes false.
-
 Definition from_push (evs : list event) (e : entry) : Prop :=
-  exists r d bytes, In (EvPush r d bytes) evs /\ e = entry_of d bytes.
+  exists r d bytes n, In (EvPush r d bytes) evs /\ e = mkEntry (d_mt d) (d_dg d) (d_sz d) bytes n.
 
 (* [steps s s' evs]: going from s to s' issued exactly the storage operations evs,
    and the store only grew, by content of pushes among evs. *)
@@ -163,7 +161,7 @@ Qed.
 
 Lemma from_push_mono e1 e2 e : from_push e1 e \/ from_push e2 e -> from_push (e1 ++ e2) e.
 Proof.
-  intros [(r & d & bs & I & E) | (r & d & bs & I & E)]; exists r, d, bs; split; auto;
+  intros [(r & d & bs & n & I & E) | (r & d & bs & n & I & E)]; exists r, d, bs, n; split; auto;
     apply in_or_app; auto.
 Qed.
 
@@ -176,36 +174,59 @@ Proof.
     apply Forall_app. split; eapply Forall_impl; try eassumption; intros; apply from_push_mono; auto.
 Qed.
 
-Lemma stored_app bd st l d : stored bd (st ++ l) d = stored bd st d || stored bd l d.
-Proof. unfold stored. apply existsb_app. Qed.
+(* the store only grows: what Exists answered stays true *)
+Lemma name_exists_app st l n : name_exists (st ++ l) n = name_exists st n || name_exists l n.
+Proof. unfold name_exists. apply existsb_app. Qed.
+
+Lemma stored_mono k st l d : stored k st d = true -> stored k (st ++ l) d = true.
+Proof.
+  unfold stored. intro E. apply andb_true_iff in E as [N X]. apply andb_true_iff. split.
+  - destruct k; auto. unfold name_ok in *. apply orb_true_iff in N as [N|N]; [now rewrite N|].
+    now rewrite name_exists_app, N, orb_true_r.
+  - now rewrite existsb_app, X.
+Qed.
 
 Lemma stored_steps bd s s' evs d :
   steps s s' evs -> stored bd (s_store s) d = true -> stored bd (s_store s') d = true.
-Proof. intros (_ & _ & l & -> & _) St. now rewrite stored_app, St. Qed.
+Proof. intros (_ & _ & l & -> & _) St. now apply stored_mono. Qed.
 
-Lemma same_key_entry_of bd d bytes : same_key bd d (entry_of d bytes) = true.
+(* what was just pushed is there *)
+Lemma stored_pushed k st d bytes :
+  stored k (st ++ [mkEntry (d_mt d) (d_dg d) (d_sz d) bytes (entry_name k d)]) d = true.
 Proof.
-  unfold same_key, full_key, entry_of. simpl. rewrite str_eqb_refl. destruct bd; simpl; auto.
-  - now rewrite str_eqb_refl, Z.eqb_refl.
-  - apply Bool.eqb_reflx.
-  - now rewrite str_eqb_refl, Z.eqb_refl.
+  unfold stored. apply andb_true_iff. split.
+  - destruct k; auto. unfold name_ok, entry_name. destruct (is_nil (title d)) eqn:T; auto.
+    cbn [orb]. rewrite name_exists_app. unfold name_exists at 2. cbn [existsb e_name].
+    rewrite str_eqb_refl. cbn [orb]. apply orb_true_r.
+  - rewrite existsb_app. apply orb_true_iff. right. simpl. rewrite orb_false_r.
+    unfold same_key, full_key, is_named, entry_name. simpl. rewrite str_eqb_refl.
+    destruct k; simpl; auto.
+    + now rewrite str_eqb_refl, Z.eqb_refl.
+    + apply Bool.eqb_reflx.
+    + destruct (is_nil (title d)); simpl; auto. now rewrite str_eqb_refl, Z.eqb_refl.
 Qed.
 
-Lemma push_dup_stored k st d : push_dup k st d = true -> stored k st d = true.
+(* an answer ErrAlreadyExists is only given for untitled descriptors (see do_push) *)
+Lemma push_dup_stored k st d : is_nil (entry_name k d) = true -> push_dup k st d = true -> stored k st d = true.
 Proof.
-  unfold push_dup, stored. intro E. apply existsb_exists in E as (e & I & P). apply existsb_exists.
-  exists e. split; auto. destruct k; auto. simpl in P. apply andb_true_iff in P as [_ P]. exact P.
+  unfold push_dup, stored. intros T E. apply existsb_exists in E as (e & I & P). apply andb_true_iff. split.
+  - destruct k; auto. unfold name_ok. unfold entry_name in T. now rewrite T.
+  - apply existsb_exists. exists e. split; auto. destruct k; auto. simpl in P.
+    apply andb_true_iff in P as [_ P]. exact P.
 Qed.
+
+(* a storage operation can fail by an injected fault or, on a file store, by a taken file name *)
+Definition may_fail (tc : tcfg) (fa : option nat) : Prop := fa <> None \/ t_key tc = KFile.
 
 Lemma do_exists_spec tc fa s d s' r :
   do_exists tc fa s d = (s', r) ->
   steps s s' [EvExists d] /\
-  (r = None -> fa <> None) /\
+  (r = None -> may_fail tc fa) /\
   (r = Some true -> stored (t_key tc) (s_store s') d = true).
 Proof.
   unfold do_exists. destruct (faulty fa s) eqn:F; intros [= <- <-]; (split; [|split]); try discriminate.
   - split; [reflexivity|]. split; [simpl; lia|]. exists nil. split; [now rewrite app_nil_r | constructor].
-  - intros _ E. subst fa. discriminate.
+  - intros _. left. intro E. subst fa. discriminate.
   - split; [reflexivity|]. split; [simpl; lia|]. exists nil. split; [now rewrite app_nil_r | constructor].
   - simpl. congruence.
 Qed.
@@ -213,22 +234,26 @@ Qed.
 Lemma do_push_spec tc fa s r d bytes s' ok :
   do_push tc fa s r d bytes = (s', ok) ->
   steps s s' [EvPush r d bytes] /\
-  (ok = false -> fa <> None) /\
+  (ok = false -> may_fail tc fa) /\
   (ok = true -> stored (t_key tc) (s_store s') d = true).
 Proof.
-  unfold do_push. destruct (faulty fa s) eqn:F.
-  - intros [= <- <-]. split; [|split]; try discriminate.
-    + split; [reflexivity|]. split; [simpl; lia|]. exists nil. split; [now rewrite app_nil_r | constructor].
-    + intros _ E. subst fa. discriminate.
-  - destruct (push_dup (t_key tc) (s_store s) d) eqn:St; intros [= <- <-]; (split; [|split]);
-      try discriminate; auto.
-    + split; [reflexivity|]. split; [simpl; lia|]. exists nil. split; [now rewrite app_nil_r | constructor].
-    + intros _. simpl. now apply push_dup_stored.
-    + split; [reflexivity|]. split; [simpl; lia|]. exists [entry_of d bytes]. split; auto.
-      constructor; [|constructor]. exists r, d, bytes. simpl; auto.
-    + intros _. simpl. rewrite stored_app. unfold stored at 2. simpl.
-      change (mkEntry (d_mt d) (d_dg d) (d_sz d) bytes false) with (entry_of d bytes).
-      rewrite same_key_entry_of. simpl. apply orb_true_r.
+  unfold do_push.
+  assert (NoGrow : steps s (tick s (EvPush r d bytes)) [EvPush r d bytes]).
+  { split; [reflexivity|]. split; [simpl; lia|]. exists nil. split; [now rewrite app_nil_r | constructor]. }
+  destruct (faulty fa s) eqn:F.
+  { intros [= <- <-]. split; [exact NoGrow|]. split; [|discriminate].
+    intros _. left. intro E. subst fa. discriminate. }
+  destruct (push_refused (t_key tc) (s_store s) d) eqn:R.
+  { intros [= <- <-]. split; [exact NoGrow|]. split; [|discriminate].
+    intros _. right. unfold push_refused in R. destruct (t_key tc); try discriminate. reflexivity. }
+  destruct (is_nil (entry_name (t_key tc) d) && push_dup (t_key tc) (s_store s) d) eqn:D; intros [= <- <-].
+  - apply andb_true_iff in D as [D1 D2]. split; [exact NoGrow|]. split; [discriminate|].
+    intros _. simpl. now apply push_dup_stored.
+  - split.
+    + split; [reflexivity|]. split; [simpl; lia|].
+      exists [mkEntry (d_mt d) (d_dg d) (d_sz d) bytes (entry_name (t_key tc) d)]. split; auto.
+      constructor; [|constructor]. exists r, d, bytes, (entry_name (t_key tc) d). simpl; auto.
+    + split; [discriminate|]. intros _. simpl. apply stored_pushed.
 Qed.
 
 Section PackProofs.
@@ -251,7 +276,7 @@ Section PackProofs.
     blob_desc d ->
     push_if_not_exist tc fa s d empty_json = (s', ok) ->
     exists evs, steps s s' evs /\ Forall blob_ev evs /\
-                (ok = false -> fa <> None) /\
+                (ok = false -> may_fail tc fa) /\
                 (ok = true -> stored (t_key tc) (s_store s') d = true).
   Proof.
     intros Bd. unfold push_if_not_exist. destruct (t_exists tc).
@@ -364,11 +389,11 @@ Section PackProofs.
       steps s s' evs -> Forall blob_ev evs ->
       outcome f tc fa s at_ o now s' (Err EInvalidDateTime)
   | OutFaultBlob s' evs :
-      must_reject f at_ o = false -> fa <> None ->
+      must_reject f at_ o = false -> may_fail tc fa ->
       steps s s' evs -> Forall blob_ev evs ->
       outcome f tc fa s at_ o now s' (Err EInjected)
   | OutFaultManifest s' evs ann m :
-      must_reject f at_ o = false -> fa <> None ->
+      must_reject f at_ o = false -> may_fail tc fa ->
       ensure_created (o_ann o) (created_key f) now = Some ann ->
       m = requested_manifest f at_ o ann ->
       steps s s' (evs ++ [EvPush RManifest (result_desc f m) (marshal m)]) -> Forall blob_ev evs ->
@@ -386,7 +411,7 @@ Section PackProofs.
     push_manifest marshal H tc fa s m at_ = (s', r) ->
     forall d, d = mkDesc (kind_mt (m_kind m)) (H (marshal m)) (Z.of_nat (length (marshal m))) (m_ann m) at_ [] ->
     steps s s' [EvPush RManifest d (marshal m)] /\
-    (r = Ok d m /\ stored (t_key tc) (s_store s') d = true \/ r = Err EInjected /\ fa <> None).
+    (r = Ok d m /\ stored (t_key tc) (s_store s') d = true \/ r = Err EInjected /\ may_fail tc fa).
   Proof.
     unfold push_manifest. intros P d ->.
     destruct (do_push tc fa s RManifest _ (marshal m)) as [s1 ok] eqn:E.
@@ -405,7 +430,7 @@ Section PackProofs.
     push_custom_empty_config H tc fa s mt ann = (s', r) ->
     forall d, d = with_ann (desc_from_bytes H mt empty_json) ann ->
     exists evs, steps s s' evs /\ Forall blob_ev evs /\
-      (r = Some d /\ stored (t_key tc) (s_store s') d = true \/ r = None /\ fa <> None).
+      (r = Some d /\ stored (t_key tc) (s_store s') d = true \/ r = None /\ may_fail tc fa).
   Proof.
     unfold push_custom_empty_config. intros P d ->.
     destruct (push_if_not_exist tc fa s _ empty_json) as [s1 ok] eqn:E.
@@ -549,8 +574,13 @@ Section PackProofs.
           mr V.
   Qed.
 
-  Lemma stored_with_ann bd st d a : stored bd st (with_ann d a) = stored bd st d.
-  Proof. reflexivity. Qed.
+  (* the placeholder layer is the config blob without its annotations: found wherever that one is *)
+  Lemma stored_untitled k st d a :
+    title d = [] -> stored k st (with_ann d a) = true -> stored k st d = true.
+  Proof.
+    unfold stored. intros T E. apply andb_true_iff in E as [_ X]. apply andb_true_iff. split; [|exact X].
+    destruct k; auto. unfold name_ok. now rewrite T.
+  Qed.
 
   Lemma v1_1_body_outcome tc fa s at_ o now s' r :
     is_empty at_ && config_is_empty_or_nil o = false ->
@@ -600,9 +630,9 @@ Section PackProofs.
       destruct lay as [[|d0 l0]|]; cbn [layers_or_empty]; intro P;
         apply (final_outcome FV11 tc fa s at_ o now s1 evs ann (requested_manifest FV11 at_ o ann) at_ s' r MR EC S0 B0);
         try reflexivity; try exact P.
-      + constructor; [exact T0|]. constructor; [|constructor]. rewrite <- (stored_with_ann _ _ _ cann). exact T0.
+      + constructor; [exact T0|]. constructor; [|constructor]. apply (stored_untitled _ _ _ cann); [reflexivity | exact T0].
       + constructor; [exact T0|]. constructor.
-      + constructor; [exact T0|]. constructor; [|constructor]. rewrite <- (stored_with_ann _ _ _ cann). exact T0.
+      + constructor; [exact T0|]. constructor; [|constructor]. apply (stored_untitled _ _ _ cann); [reflexivity | exact T0].
   Qed.
 
   Lemma v1_1_outcome tc fa s at_ o now s' r :
@@ -660,7 +690,7 @@ Section PackProofs.
     steps s s' evs -> Forall blob_ev evs -> only_empty_blob_added (s_store s) (s_store s').
   Proof.
     intros (_ & _ & l & E & F) B. exists l. split; auto.
-    eapply Forall_impl; [|exact F]. intros e (r & d & bs & I & ->).
+    eapply Forall_impl; [|exact F]. intros e (r & d & bs & n & I & ->).
     rewrite Forall_forall in B. specialize (B _ I). destruct r; simpl in B; [|contradiction].
     destruct B as (-> & D1 & D2). simpl. auto.
   Qed.
@@ -668,7 +698,7 @@ Section PackProofs.
   Theorem bad_created_no_manifest f tc fa s at_ o now s' r v :
     ann_get (created_key f) (o_ann o) = Some v -> rfc3339_ok v = false ->
     pack marshal H f tc fa s at_ o now = (s', r) ->
-    (exists e, r = Err e /\ (must_reject f at_ o = false -> fa = None -> e = EInvalidDateTime)) /\
+    (exists e, r = Err e /\ (must_reject f at_ o = false -> fa = None -> t_key tc <> KFile -> e = EInvalidDateTime)) /\
     (exists evs, steps s s' evs /\ Forall blob_ev evs) /\
     only_empty_blob_added (s_store s) (s_store s').
   Proof.
@@ -680,7 +710,7 @@ Section PackProofs.
       exists []. split; [now rewrite app_nil_r | constructor].
     - split; [eexists; split; [reflexivity | auto]|].
       split; [eauto | eapply blob_steps_store; eauto].
-    - split; [eexists; split; [reflexivity | intros _ F; contradiction]|].
+    - split; [eexists; split; [reflexivity | intros _ F K; match goal with Hm : may_fail _ _ |- _ => destruct Hm; contradiction end]|].
       split; [eauto | eapply blob_steps_store; eauto].
   Qed.
 
@@ -739,7 +769,7 @@ Section PackProofs.
     steps s s' evs -> Forall consistent_ev evs -> wf_store (s_store s) -> wf_store (s_store s').
   Proof.
     intros (_ & _ & l & -> & F) C W. apply Forall_app. split; auto.
-    eapply Forall_impl; [|exact F]. intros e (r & d & bs & I & ->).
+    eapply Forall_impl; [|exact F]. intros e (r & d & bs & n & I & ->).
     rewrite Forall_forall in C. apply (C _ I).
   Qed.
 
@@ -766,7 +796,7 @@ Section PackProofs.
   Qed.
 
   Lemma stored_In bd st d : stored bd st d = true -> exists e, In e st /\ same_key bd d e = true.
-  Proof. unfold stored. intro E. apply existsb_exists in E. exact E. Qed.
+  Proof. unfold stored. intro E. apply andb_true_iff in E as [_ E]. apply existsb_exists in E. exact E. Qed.
 
   Lemma same_key_dg bd d e : same_key bd d e = true -> d_dg d = e_dg e.
   Proof. unfold same_key. intro E. apply andb_true_iff in E as [E _]. now apply str_eqb_spec. Qed.
